@@ -2,7 +2,7 @@
 comparison, shrinking, known findings, evidence."""
 import concurrent.futures, fcntl, hashlib, json, os, re, shutil, subprocess, sys, tempfile, time
 
-V = '/verif'
+V = os.path.dirname(os.path.dirname(os.path.abspath(__file__)))
 REPO = '/repo'
 GOENV = dict(os.environ, GOFLAGS='-mod=mod', GOPROXY='off', GOSUMDB='off', GOTOOLCHAIN='local',
              CGO_ENABLED='0')
